@@ -110,6 +110,16 @@ func mutations(r *rng.R, cfg *scfg, thorough bool) []c02case {
 	reenc(fields[3][:10]+"\r\n"+fields[3][10:], fields[4][:7]+"\r"+fields[4][7:]) // embedded CR/LF: first line ends early
 	reenc(fields[3][:10]+"\r"+fields[3][10:], fields[4][:7]+"\r"+fields[4][7:])   // embedded CR only: skipped by the decoder
 	reenc(fields[3], fields[4]+"\r")
+	// fields that are non-empty TEXT but decode to nothing (the decoder skips CR and LF): a CRLF-terminated
+	// record whose digest is missing, a lone CR for the salt, …
+	for _, blank := range []string{"\r", "\r\r", "\r\r\r\r"} {
+		reenc(fields[3], blank)
+		reenc(blank, fields[4])
+		reenc(blank, blank)
+	}
+	add([]byte(strings.Join(fields[:4], ":") + ":\r\n"))
+	add([]byte(strings.Join(fields[:4], ":") + ":\r"))
+	add([]byte(strings.Join(fields[:3], ":") + ":\r:" + fields[4] + "\r\n"))
 	// non-canonical trailing bits (same decoded bytes)
 	if strings.HasSuffix(fields[4], "=") && !strings.HasSuffix(fields[4], "==") {
 		h := []byte(fields[4])
@@ -281,6 +291,8 @@ func suiteC02(c *ctx) {
 				_, listed := l[user]
 				id := xb(cs.content[:min(len(cs.content), 400)])
 				c.emit("law.C02.list_shows_exactly_supported "+id, tf(listed == supported))
+				// … and "supported" is what an independent reading of the schema says about the bytes
+				c.emit("law.C02.supported_iff_independent_schema_reading "+id, tf(supported == independentSupported(cfg, cs.content)))
 				pre := snapshot(base)
 				errAdd := d.AddUser(user, "NewPassw0rd", false)
 				post := snapshot(base)
